@@ -249,3 +249,22 @@ Proof.
   - apply andb_true_iff in Hok as [_ Hd]. apply IHd; assumption.
   - destruct v; try discriminate. reflexivity.
 Qed.
+
+(* a frame cut right before a trailing #[speedy(default_on_eof)] field *)
+Lemma dec_pair_eof_default a b x :
+  desc_ok a = true -> wt a x = true -> dec b [] = REof ->
+  dec (DPair a (DEofDefault b)) (enc a x) = ROk (VP x (default_of b)) [].
+Proof.
+  intros Ha Hx Hb. cbn [dec]. rewrite <- (app_nil_r (enc a x)). rewrite (dec_enc a Ha x [] Hx).
+  rewrite Hb. reflexivity.
+Qed.
+
+Lemma dec_sum_single tb d bs :
+  (tb <= 8)%nat ->
+  dec (DSum tb [d]) (le_bytes tb 0 ++ bs) =
+  match dec d bs with ROk x r => ROk (VT 0 x) r | e => e end.
+Proof.
+  intros Htb. cbn [dec]. rewrite read_uint_le.
+  - cbn. reflexivity.
+  - split; [lia|]. apply Z.pow_pos_nonneg; lia.
+Qed.
